@@ -156,3 +156,61 @@ Proof.
   apply andb_prop in S. destruct S as [E B]. apply negb_true_iff in E. apply bytes_eqb_eq in B.
   rewrite unesc_app, E, B. f_equal. exact IH.
 Qed.
+
+(* ---- string arguments and return values in the chrome events ---- *)
+Lemma unesc_end_app : forall a b p, unesc_end p (a ++ b) = unesc_end (unesc_end p a) b.
+Proof.
+  induction a as [|c a IH]; intros b p; simpl; [reflexivity|]. destruct p; apply IH.
+Qed.
+Lemma unesc_end_escape : forall s, unesc_end false (json_escape s) = false.
+Proof.
+  induction s as [|c s IH]; [reflexivity|].
+  cbn [json_escape flat_map]. rewrite unesc_end_app. unfold json_escape_char.
+  pose proof unesc_sweep as S. rewrite forallb_forall in S.
+  assert (L : c mod 256 < 256) by (apply N.mod_lt; discriminate).
+  specialize (S _ (all_bytes_complete _ L)). unfold unesc_ok in S.
+  apply andb_prop in S. destruct S as [E _]. apply negb_true_iff in E. rewrite E. exact IH.
+Qed.
+
+Lemma ok_wrap : forall pre body post,
+  lex_run S_body pre = Some S_body -> lex_run S_body body = Some S_body -> lex_run S_body post = Some S_body ->
+  json_string_ok (quoted (pre ++ body ++ post)) = true.
+Proof.
+  intros pre body post H1 H2 H3. unfold quoted, json_string_ok.
+  rewrite lex_run_app, lex_run_app, H1, lex_run_app, H2, H3. reflexivity.
+Qed.
+Definition arg_body (raw : list N) : list N :=
+  if is_null_str raw then [78; 85; 76; 76] else [92; 34] ++ json_escape (cstr raw) ++ [92; 34].
+Lemma arg_json_eq : forall entry raw,
+  arg_json entry raw = (if entry then [40] else []) ++ arg_body raw ++ (if entry then [41] else []).
+Proof. intros [|] raw; unfold arg_json, arg_body; simpl; [reflexivity|rewrite app_nil_r; reflexivity]. Qed.
+Lemma arg_body_lex : forall raw, lex_run S_body (arg_body raw) = Some S_body.
+Proof.
+  intros raw. unfold arg_body. destruct (is_null_str raw); [reflexivity|]. cbv iota.
+  rewrite lex_run_app. change (lex_run S_body [92; 34]) with (Some S_body). cbv iota beta.
+  rewrite lex_run_app, escape_body. reflexivity.
+Qed.
+Theorem json_args_valid : forall entry raw, json_string_ok (quoted (arg_json entry raw)) = true.
+Proof.
+  intros entry raw. rewrite arg_json_eq. apply ok_wrap; [destruct entry; reflexivity|apply arg_body_lex|destruct entry; reflexivity].
+Qed.
+
+Definition arg_body_shown (raw : list N) : list N :=
+  if is_null_str raw then [78; 85; 76; 76] else [34] ++ shown (cstr raw) ++ [34].
+Lemma arg_body_unesc : forall raw, unesc false (arg_body raw) = arg_body_shown raw /\ unesc_end false (arg_body raw) = false.
+Proof.
+  intros raw. unfold arg_body, arg_body_shown. destruct (is_null_str raw); [split; reflexivity|]. cbv iota. split.
+  - rewrite unesc_app. change (unesc false [92; 34]) with [34]. change (unesc_end false [92; 34]) with false.
+    rewrite unesc_app, unesc_end_escape. change (unesc false [92; 34]) with [34].
+    pose proof (json_name_shown (cstr raw)) as H. unfold unescape in H. rewrite H. reflexivity.
+  - rewrite unesc_end_app. change (unesc_end false [92; 34]) with false.
+    rewrite unesc_end_app, unesc_end_escape. reflexivity.
+Qed.
+Theorem json_args_shown : forall entry raw, unescape (arg_json entry raw) = arg_shown entry raw.
+Proof.
+  intros entry raw. unfold unescape. rewrite arg_json_eq. destruct (arg_body_unesc raw) as [B1 B2].
+  destruct entry.
+  - rewrite unesc_app. change (unesc false [40]) with [40]. change (unesc_end false [40]) with false.
+    rewrite unesc_app, B1, B2. reflexivity.
+  - simpl app. rewrite app_nil_r. exact B1.
+Qed.
